@@ -68,6 +68,10 @@ class Rec:
         self.b = b
         self.objs, self.props, self.table = objs, props, table
         self.ctx = self.C.Context(objs, props, table.bools())
+        rows = self.ctx.bools               # the returned list is the caller's: edit it in place before any dump
+        if isinstance(rows, list):
+            rows.reverse()
+            del rows[len(rows) // 2:]
         self.ev('t.new', objs=objs, props=props, rows=table.rows, tag=table.tag)
 
     def dump(self, fmt, reader, how='string', enc=None, tag='', **kw):
